@@ -1627,3 +1627,7 @@ cdef class NNPS(NNPSBase):
         for name, arr in pa.properties.items():
             stride = pa.stride.get(name, 1)
             arr.c_align_array(indices, stride)
+
+        # The spatial order mixes Local and Remote/Ghost particles; everything
+        # else assumes the first num_real_particles slots are the Local ones.
+        pa.align_particles()
